@@ -126,19 +126,38 @@ Print Assumptions c36_for_var_after_refuted.
    of the model's code with the decompiled python_to_ir output and by differential execution.
    [pexec] = CPython's big-step semantics within 64 bits (relational; a derivation exists only
    for terminating, exception-free, overflow-free executions). ---- *)
-Theorem c36_stmt_exact : forall s env out, pexec s env out ->
+(* [fenv] = the functions of the module (calls x = f(e1..en) run the callee's body on fresh
+   variables; recursion allowed); [ft] = the function table of the emitted code, holding the
+   compiled bodies *)
+Theorem c36_stmt_exact : forall ft fenv,
+  (forall f nloc body, fenv f = Some (nloc, body) ->
+     exists c, pcompile lowcfg_cur 0 body KStuck KStuck KStuck = Some c /\ ft f = Some (nloc, c)) ->
+  forall s env out, pexec fenv s env out ->
   forall d kn kb kc c ls rg v, pcompile lowcfg_cur d s kn kb kc = Some c -> length ls = d ->
     top_ok d kn -> top_ok d kb -> top_ok d kc ->
-    after d ls rg v kn kb kc out -> pruns ls env rg c v.
-Proof. exact (stmt_sim_all lowcfg_cur sound_cur fd_exact_cur). Qed.
+    after ft d ls rg v kn kb kc out -> pruns ft ls env rg c v.
+Proof. intros ft fenv H. exact (stmt_sim_all ft fenv lowcfg_cur sound_cur fd_exact_cur H). Qed.
 Print Assumptions c36_stmt_exact.
 
 (* a function body that CPython runs to `return v` compiles to code that returns v *)
-Theorem c36_body_exact : forall body env v c rg,
-  pexec body env (PRet v) -> pcompile lowcfg_cur 0 body KStuck KStuck KStuck = Some c ->
-  pruns [] env rg c v.
+Theorem c36_body_exact : forall ft fenv body env v c rg,
+  (forall f nloc b, fenv f = Some (nloc, b) ->
+     exists cf, pcompile lowcfg_cur 0 b KStuck KStuck KStuck = Some cf /\ ft f = Some (nloc, cf)) ->
+  pexec fenv body env (PRet v) -> pcompile lowcfg_cur 0 body KStuck KStuck KStuck = Some c ->
+  pruns ft [] env rg c v.
 Proof. intros. eapply body_exact; eauto using sound_cur, fd_exact_cur. Qed.
 Print Assumptions c36_body_exact.
+
+(* a whole module: functions [funs] (definition order) calling each other, also recursively; if
+   CPython runs function [main] on [args] to `return v`, the compiled module does too.  External
+   (imported) functions are not modelled: no statement about the sequence of external calls. *)
+Theorem c36_module_exact : forall funs cs main nloc body args v rg,
+  compile_funs lowcfg_cur funs = Some cs -> nth_error funs main = Some (nloc, body) ->
+  pexec (nth_error funs) body (args ++ repeat 0 nloc) (PRet v) ->
+  exists c, nth_error cs main = Some (nloc, c) /\
+            pruns (nth_error cs) [] (args ++ repeat 0 nloc) rg c v.
+Proof. intros. eapply module_exact; eauto using sound_cur, fd_exact_cur. Qed.
+Print Assumptions c36_module_exact.
 
 (* the statement model is the one of the current source's gen_for *)
 Theorem c36_stmt_model_variant : for_variant_cur = VIncBlock /\ for_loopvar_cur = LVSlot.
@@ -148,9 +167,15 @@ Print Assumptions c36_stmt_model_variant.
 (* the statement theorems are not vacuous: CPython runs this body (s = 0; for i in range(0, a):
    if i == 1: continue; s = s + i; return s // 2) from a = 3 to `return 1`, and it compiles *)
 Example c36_stmt_nonvacuous :
-  pexec ex36_body [3; 7; 9] (PRet 1) /\
+  pexec (fun _ => None) ex36_body [3; 7; 9] (PRet 1) /\
   exists c, pcompile lowcfg_cur 0 ex36_body KStuck KStuck KStuck = Some c.
 Proof. split; [exact ex36_run|]. eexists. vm_compute. reflexivity. Qed.
+
+(* ... and a module: f0(a) = return a * 2; f1(a, x) = x = f0(a + 1); return x -- f1(4) returns 10 *)
+Example c36_module_nonvacuous :
+  pexec (nth_error ex36_funs) (snd ex36_main) ([4] ++ repeat 0 1%nat) (PRet 10) /\
+  exists cs, compile_funs lowcfg_cur ex36_funs = Some cs.
+Proof. split; [exact ex36_module_run|]. eexists. vm_compute. reflexivity. Qed.
 
 (* hypotheses are inhabited: (x0 - 7) // x1 with x0 = 0, x1 = 2 lowers and evaluates to -4;
    a loop with continue at 1 and break at 3 visits 0 1 2 3 and leaves 3 in the variable *)
